@@ -61,6 +61,10 @@ def gain_case(rec, seedt, backend, cuda):
     rng = gen.rng_for(*seedt)
     N = int(rng.integers(120, 300)) if cuda else int(rng.integers(500, 20000))
     win, order, sched = pick(rng, cuda)
+    if not cuda and rng.random() < 0.25:
+        win = {"kind": "callable", "name": str(rng.choice(list(api.CALLABLES)))}  # any window
+    if not cuda and backend == "numba" and rng.random() < 0.3:
+        backend = "auto"
     exact = bool(rng.random() < 0.5)
     g = float(rng.choice([-1, 1])) * (2.0 ** int(rng.integers(-10, 11)) if exact
                                       else 10 ** rng.uniform(-3, 3))
@@ -85,7 +89,7 @@ def gain_case(rec, seedt, backend, cuda):
     valid = (np.asarray(r.L) > order + 1) & (r.XX > 1e-24 * np.max(r.XX))
     if not np.any(valid):
         return
-    rec.count(f"gain_bins[{backend}]", int(valid.sum()))
+    rec.count(f"gain_bins[{'numba' if backend == 'auto' else backend}]", int(valid.sum()))
     tol = 1e-9
     if not exact:
         sw = np.abs(np.sin(2 * np.pi * r.f[valid] / fs))
